@@ -53,6 +53,19 @@ def run(tier):
     if p.returncode != 0:
         raise vp.Broken("c09_driver rc=%d %s" % (p.returncode, p.stderr[-300:]))
     events = vp.read_ndjson(tpath)
+    # the "single" schedules again on the backend variant with the grant / deny interface (refusing)
+    gpath, gtpath = os.path.join(wd, "schedules_gd.txt"), os.path.join(wd, "c09_gd.ndjson")
+    with open(gpath, "w") as f:
+        f.write("\n".join(l for l in lines if l.startswith("single ")) + "\n")
+    gdrv = vp.build("c09_driver_gd", ["c09_driver.cpp"], ["-DVM_GRANT_DENY"])
+    p = vp.run([gdrv, gpath, gtpath], timeout=1100)
+    if p.returncode != 0:
+        raise vp.Broken("c09_driver_gd rc=%d %s" % (p.returncode, p.stderr[-300:]))
+    gev = vp.read_ndjson(gtpath)
+    if not gev:
+        raise vp.Broken("no executions recorded on the grant/deny backend variant")
+    events += gev
+    vp.write_ndjson(tpath, events)
     cfgt = os.path.join(wd, "Trace_Copy.cfg")
     with open(cfgt, "w") as f:
         f.write(open(os.path.join(vp.SPEC, "Trace_Copy.cfg")).read())
@@ -64,6 +77,7 @@ def run(tier):
     for b in res[0]["bad"]:
         chk.violation("copy outside the C09 Contract: %s" % events[b - 1], events[b - 1])
     # binding sanity: every scheduled write must have been performed at its yield point
+    chk.cov["deny_refused_runs"] = len(gev)
     pc = [e for e in events if e["e"] == "pcopy"]
     if len(pc) != 4 or not all(e["redirected"] for e in pc):
         raise vp.Broken("pointer-cell runs incomplete: the range-check hook of the backend did not fire: %s" % pc)
